@@ -593,8 +593,12 @@ impl Connection {
                     .ok_or_else(|| Error::InvalidStateMessage("no active stream".to_string()))?;
 
                 stream.write_u32(total_len as u32).await?;
+                #[cfg(edp_rs_verif)]
+                crate::verif::point("sender", "send.after_len", "").await;
                 stream.write_u8(PASS_THROUGH).await?;
                 stream.write_all(&control_encoded).await?;
+                #[cfg(edp_rs_verif)]
+                crate::verif::point("sender", "send.after_control", "").await;
                 stream.write_all(&msg_encoded).await?;
                 stream.flush().await?;
             } else {
@@ -611,6 +615,8 @@ impl Connection {
                     .ok_or_else(|| Error::InvalidStateMessage("no active stream".to_string()))?;
 
                 stream.write_u32(total_len as u32).await?;
+                #[cfg(edp_rs_verif)]
+                crate::verif::point("sender", "send.after_len", "").await;
                 stream.write_u8(PASS_THROUGH).await?;
                 stream.write_all(&control_encoded).await?;
                 stream.flush().await?;
